@@ -792,6 +792,54 @@ func ruleHD() Rule {
 						return true
 					})
 					if !printed {
+						// a second reader of the region that compares a line it collected
+						// itself with the delimiter: the operator matters there as well
+						if _, isConst := constStr(info, other); isConst {
+							return true
+						}
+						if t := info.Types[other].Type; t == nil || t.String() != "string" {
+							return true
+						}
+						mentions := false
+						check := func(e ast.Node) {
+							ast.Inspect(e, func(x ast.Node) bool {
+								if se, ok := x.(*ast.SelectorExpr); ok {
+									if v := core.FieldOf(info, se); v != nil && v.Name() == "Op" && v.Pkg() != nil && v.Pkg().Name() == "ast" {
+										mentions = true
+									}
+								}
+								return true
+							})
+						}
+						var top ast.Expr = be
+						for {
+							p, ok := c.P.Parent(top).(ast.Expr)
+							if !ok {
+								break
+							}
+							top = p
+						}
+						check(top)
+						for _, gd := range guardsOf(c.P, be, nil) {
+							check(gd.cond)
+						}
+						if !mentions {
+							g.OwnNodes(func(x ast.Node) bool {
+								if ifs, ok := x.(*ast.IfStmt); ok {
+									check(ifs.Cond)
+								}
+								if sw, ok := x.(*ast.SwitchStmt); ok && sw.Tag != nil {
+									check(sw.Tag)
+								}
+								return true
+							})
+						}
+						key := f.Name + "|delimiter test depends on Op|" + g.Short + " " + normExpr(info, be)
+						if mentions {
+							rr.OK(g, key, be.Pos(), "op-dependent", "this reader distinguishes `<<-` from `<<` too")
+						} else {
+							rr.Bad(g, key, be.Pos(), "this comparison of a collected line with the delimiter never reads the redirection's operator: in this reader a tab-indented delimiter line does not end a `<<-` here-document")
+						}
 						return true
 					}
 					// the whole condition this comparison belongs to
